@@ -482,7 +482,13 @@ func runScript(sc Script, serial *sync.Mutex) []Ev {
 		}
 	}
 	doShutdown()
-	sendWG.Wait()
+	sendsDone := make(chan struct{})
+	go func() { sendWG.Wait(); close(sendsDone) }()
+	select {
+	case <-sendsDone:
+	case <-time.After(10 * time.Second):
+		r.log(Ev{Ev: "note", Text: "a send call did not return within 10 s after shutdown"})
+	}
 	// watch for export calls that begin after Shutdown returned, let exiting goroutines finish
 	time.Sleep(150 * time.Millisecond)
 	var left []string
